@@ -18,10 +18,19 @@ import (
 func genC24(t *rapid.T) srvCase {
 	n := rapid.IntRange(3, 14).Draw(t, "n")
 	var ops []sop
+	if rapid.IntRange(0, 2).Draw(t, "churn") == 0 {
+		// while the listener is slow to read, one announced caller leaves and another arrives
+		p := rapid.Permutation([]int{1, 2, 3}).Draw(t, "callers")
+		ops = append(ops, sop{Op: "listen"}, sop{Op: "attach", P: p[0]}, sop{Op: "lgate"})
+		if rapid.Bool().Draw(t, "third") {
+			ops = append(ops, sop{Op: "attach", P: p[2]})
+		}
+		ops = append(ops, sop{Op: "detach", P: p[0]}, sop{Op: "attach", P: p[1]}, sop{Op: "lrelease"})
+	}
 	for i := 0; i < n; i++ {
-		op := rapid.SampledFrom([]string{"listen", "listen", "unlisten", "attach", "attach", "attach", "detach", "detach"}).Draw(t, "op")
+		op := rapid.SampledFrom([]string{"listen", "listen", "unlisten", "attach", "attach", "attach", "detach", "detach", "lgate", "lrelease"}).Draw(t, "op")
 		o := sop{Op: op}
-		if op == "listen" || op == "unlisten" {
+		if op == "listen" || op == "unlisten" || op == "lgate" || op == "lrelease" {
 			o.P = 0
 		} else {
 			o.P = rapid.IntRange(1, 3).Draw(t, "caller")
@@ -71,7 +80,10 @@ func checkC24(c srvCase) (o vstat.Outcome) {
 		t.teardown()
 	}()
 	closedOnce := map[int]bool{}
-	for _, op := range c.Ops {
+	ops := append([]sop{}, c.Ops...)
+	// a listener that stopped reading resumes at the end
+	ops = append(ops, sop{Op: "lrelease"})
+	for _, op := range ops {
 		if op.Op == "attach" && closedOnce[op.P] && t.listens[0] != nil {
 			t.classes["reopen-while-listening"] = true
 		}
@@ -82,7 +94,8 @@ func checkC24(c srvCase) (o vstat.Outcome) {
 			closedOnce[op.P] = true
 		}
 		l := t.listens[0]
-		if l == nil {
+		if l == nil || l.gated() {
+			// nothing is judged while the listener does not read
 			continue
 		}
 		want := map[string]bool{}
@@ -118,13 +131,13 @@ func checkC24(c srvCase) (o vstat.Outcome) {
 			return
 		}
 	}
-	o.NonTrivial = t.classes["reopen-while-listening"] || t.classes["usurp-listen"]
+	o.NonTrivial = t.classes["reopen-while-listening"] || t.classes["usurp-listen"] || t.classes["held-listen-stream"]
 	return
 }
 
 var specC24 = vstat.Spec[srvCase]{
 	Property: "C24",
-	Rule: "the real relay Server; one listener identity and three callers; histories of 3-14 operations listen (a second listen usurps) / unlisten / session open / session close, one at a time; " +
+	Rule: "the real relay Server; one listener identity and three callers; histories of 3-14 operations listen (a second listen usurps) / unlisten / session open / session close, one at a time, and listener-stops-reading / resumes (the relay's Send on the Listen stream is held, the operations in between are not judged until it resumes; a third of the histories start with an announced caller leaving and another arriving during such a pause); " +
 		"oracle after every operation (eventual, waited up to 3 s): on the active Listen stream SetPeer minus ClearPeer == the callers currently holding an open Session towards the listener; never a ClearPeer for an unannounced peer nor a duplicate SetPeer; " +
 		"non-trivial = a caller closes and re-opens while the same listener stays, or a listen usurp",
 	Gen:      genC24,
